@@ -28,6 +28,9 @@ type c16Assign struct {
 	// defAt: setting -> "flag" | "env": that level restates the documented default value
 	// explicitly (e.g. --maxdepth 10); it must still win over the configuration file
 	defAt map[string]string
+	// alsoDefault: a second configuration file at the default location sets this setting while the
+	// named file (src) does not: the named file is the configuration file, the other must be ignored
+	alsoDefault string
 }
 
 var c16Settings = []string{"database", "logfile", "date-format", "maxdepth", "today"}
@@ -75,6 +78,9 @@ func (a c16Assign) String() string {
 	f := "no config file"
 	if a.file {
 		f = "config via " + a.src
+	}
+	if a.alsoDefault != "" {
+		f += ", another file at the default location sets " + a.alsoDefault
 	}
 	return strings.Join(parts, " ") + " [" + f + "]"
 }
@@ -148,6 +154,16 @@ func (e c16Env) exec(a c16Assign, dbOverride, logLayoutFor string, cmd ...string
 			os.MkdirAll(filepath.Join(e.home, ".hranoprovod"), 0o755)
 			os.WriteFile(filepath.Join(e.home, ".hranoprovod", "config"), []byte(conf), 0o644)
 		}
+	}
+	if a.alsoDefault != "" {
+		other := map[string]string{
+			"database":    "[Global]\nDbFileName=" + filepath.Join(e.dir, "db_conf.yaml") + "\n",
+			"logfile":     "[Global]\nLogFileName=" + filepath.Join(e.dir, "log_conf.yaml") + "\n",
+			"date-format": "[Global]\nDateFormat=" + c16Layouts["conf"] + "\n",
+			"maxdepth":    fmt.Sprintf("[Resolver]\nMaxDepth=%d\n", c16Depth["conf"]),
+		}[a.alsoDefault]
+		os.MkdirAll(filepath.Join(e.home, ".hranoprovod"), 0o755)
+		os.WriteFile(filepath.Join(e.home, ".hranoprovod", "config"), []byte(other), 0o644)
 	}
 	layoutLevel := a.level("date-format")
 	layout := c16Layouts[layoutLevel]
@@ -238,7 +254,7 @@ func runC16(c *core.Ctx) {
 	}
 
 	check := func(a c16Assign, setting string) {
-		e.unshare = a.src == "default" && canUnshare
+		e.unshare = (a.src == "default" || a.alsoDefault != "") && canUnshare
 		if a.src == "default" && !canUnshare {
 			return
 		}
@@ -382,6 +398,17 @@ func runC16(c *core.Ctx) {
 				check(a, s)
 				c.Nontrivial(a.String(), s, "restated-default")
 				c.Count("restated_default_cases", 1)
+			}
+		}
+	}
+	// (1c) a configuration file at the default location must not leak into a run that names another file
+	if canUnshare {
+		for _, s := range []string{"database", "logfile", "date-format", "maxdepth"} {
+			for _, named := range []string{"--config", "HR_CONFIG"} {
+				a := c16Assign{flag: map[string]bool{}, env: map[string]bool{}, conf: map[string]bool{}, file: true, src: named, alsoDefault: s}
+				check(a, s)
+				c.Nontrivial(a.String(), s, "two-config-files")
+				c.Count("two_config_file_cases", 1)
 			}
 		}
 	}
